@@ -176,3 +176,60 @@ def key_scalar(r, n):
         v = r.randrange(1, n)
     v %= n
     return v or 1
+
+
+# --------------------------------------------------- curve registration ----
+
+class registered(object):
+    """Context manager: make a fresh (toy) Curve findable by OID for the
+    DER/PEM loaders during one run."""
+
+    def __init__(self, curve, on=True):
+        self.curve = curve
+        self.on = on
+
+    def __enter__(self):
+        if self.on:
+            from ecdsa import curves as lc
+            lc.curves.append(self.curve)
+        return self.curve
+
+    def __exit__(self, *a):
+        if self.on:
+            from ecdsa import curves as lc
+            try:
+                lc.curves.remove(self.curve)
+            except ValueError:
+                pass
+        return False
+
+
+_lz = {}
+
+
+def leading_zero_scalars(name):
+    """Frozen data: scalars d whose public point d*G has a leading zero byte
+    in x ('x0') or y ('y0') on the named curve."""
+    if not _lz:
+        import json
+        import os
+        with open(os.path.join(os.path.dirname(__file__), "model",
+                               "leading_zero.json")) as f:
+            _lz.update(json.load(f))
+    return _lz.get(name, {"x0": [], "y0": []})
+
+
+def run_curve(mc):
+    """(library Curve, is_toy) for a run: toy curves are built fresh, named
+    curves are the library's own objects (the loaders return those)."""
+    toy = mc.p < (1 << 24)
+    return (fresh_lib_curve(mc) if toy else global_lib_curve(mc)), toy
+
+
+_tables_checked = []
+
+
+def named_table_discrepancies():
+    if not _tables_checked:
+        _tables_checked.append(check_named_tables())
+    return _tables_checked[0]
